@@ -1,7 +1,7 @@
 (* C01 dispatch: the extracted specification validator applied to arrays RETURNED by real kernels.
    Input (postcondition op): [validate_full verdict of the implementation] followed by the tree encoding
    of coq/Model/D_C09.v. *)
-From Coq Require Import List ZArith String Bool.
+From Coq Require Import List Arith ZArith String Bool.
 From AV Require Import Base.Codec Model.C09_Layout Model.D_C09.
 Import ListNotations.
 Local Open Scope string_scope.
@@ -12,4 +12,21 @@ Definition p_valid (a : args) : list (list Z) :=
   | None => [[(-3)%Z]]
   end.
 
-Definition ops_C01 : list (string * opfun) := [ ("c01.valid.post1", p_valid) ].
+(* classifier for known finding F14: the specification accepts, ArrayData::validate_full rejects, and some
+   node carries a validity bitmap (with its own bit offset) that is shorter than ceil((array offset + len)/8)
+   bytes — the exact condition ArrayData::validate complains about *)
+Fixpoint has_short_bitmap (a : parr) : bool :=
+  match a with
+  | PArr _ len off nulls _ kids =>
+      match nulls with
+      | Some nb => (List.length (nb_bytes nb) <? (off + len + 7) / 8)%nat
+      | None => false
+      end || existsb has_short_bitmap kids
+  end.
+Definition d_vfclass (a : args) : list (list Z) :=
+  match decode_arr a with
+  | Some p => [[zb (spec_valid p && Z.eqb (hd 0%Z (hd [] a)) 0 && has_short_bitmap p)]]
+  | None => [[(-3)%Z]]
+  end.
+
+Definition ops_C01 : list (string * opfun) := [ ("c01.valid.post1", p_valid); ("c01.vfclass", d_vfclass) ].
